@@ -169,4 +169,17 @@ PROPS = {
                 "Non-trivial: (1) a sequence with >=1 executed acquisition (lock held and probed); (2) a run in which >=2 acquisitions found the path already held (contention counter in the side file); (3) every pair. Distinct by case.",
         "assumptions": ["Linux flock locks belong to open file descriptions, so a probe from a fresh descriptor conflicts with a holder in the same process"],
     },
+    "C07": {
+        "pkg": "c07_atomic",
+        "level": "exploration",
+        "engine": "rapid+rig+fos",
+        "instr": ["cache:cachex", "lockedfile:lockedfilex", "lockedfile/internal/filelock:lockedfilex/internal/filelock"],
+        "technique": "randomized multi-process histories of Read/Write/Transform with unique self-describing values, judged by a linearizability checker (porcupine, atomic-register model with read / write / read-modify-write); deterministic truncate-before-lock probe; exhaustive fault injection at every file operation of Transform through the os shim",
+        "level_text": "(1) 1-3 processes x 1-4 goroutines run drawn programs on one file; every value is unique and carries its length and a checksum, so an empty, truncated or mixed read is recognised by itself, and the CLOCK_MONOTONIC-stamped history must be linearizable (no stale read, no lost update). (2) while a read lock is held, a concurrent Write/Create/OpenFile(O_TRUNC) must not change the bytes on disk. (3) for 10 old/new length relations x callback ok/error, every file operation Transform performs is made to fail (writes also cut short at 0, 1, n/2, n-1 bytes): error => file holds exactly the old contents, nil => exactly the new.",
+        "level_note": "Trusted: porcupine v1.3.0; CLOCK_MONOTONIC is machine-wide; the os shim for (3). (1) depends on the OS scheduler: randomized search with an exact oracle; a linearizability search that exceeds 20 s is counted as inconclusive, never as a violation. One fault per Transform call (the statement's 'any single write step').",
+        "shards": {"quick": 4, "thorough": 16},
+        "rule": "(1) case = procs in 1..3, 2-12 goroutines, up to 40 operations in total drawn from read (33%), write, transform (33%), transform whose callback errs; value lengths from {20,30,200,5000,70000,260000}, initial length from {30,500,70000}; (2) 3 writer kinds x 3 (quick) / 20 (thorough) lengths; (3) exhaustive as described. "
+                "Non-trivial: (1) a history with >=2 overlapping operations of which >=1 writes; (3) a fault at a write step with len(new) != len(old). Distinct by case.",
+        "assumptions": ["local file system; flock-based locking as on Linux"],
+    },
 }
